@@ -11,8 +11,7 @@
    4^d resp. 2^d results, exact partition of the voxel's region (Voxel.inR), pairwise disjointness; soundness of the run-time checkers. *)
 From Coq Require Import ZArith String Ascii List Bool Lia Permutation DecimalString Decimal Reals Sorting.Mergesort Orders Sorted.
 From Flocq Require Import Core.
-From SIDGen Require Generated.
-From SID Require Import Base Str Ids Voxel ZoomCore GenEqConst.
+From SID Require Import Base Str Ids Voxel ZoomCore.
 Import ListNotations.
 Open Scope Z_scope.
 
@@ -1235,22 +1234,13 @@ Proof.
   unfold setter_step_spec, rd_step, rb_of; cbn [fst snd]. repeat split; apply parse_print_eid; [now apply Fa|exact Fi|exact Fi].
 Qed.
 
-(* ---- the delimiter. The parser and printer models split and join at Str.slash; the constant the Go code uses is
-        consts.SpatialIDDelimiter, regenerated from /repo on every run as Generated.SpatialIDDelimiter (its bytes) ---- *)
+(* ---- the delimiter. The parser and printer models split and join at Str.slash; that this is the constant the Go code uses
+        (consts.SpatialIDDelimiter, regenerated from /repo as Generated.SpatialIDDelimiter) is proved in GenC10.v, which nothing on the
+        dispatch side imports ---- *)
 Definition bytes_to_string (l : list Z) : string := fold_right (fun b r => String (ascii_of_nat (Z.to_nat b)) r) EmptyString l.
 Lemma join_concat l : join l = String.concat (String slash EmptyString) l.
 Proof.
   induction l as [|a r IH]; [reflexivity|]. destruct r as [|b r']; [reflexivity|].
   rewrite join_cons, IH. reflexivity.
 Qed.
-Theorem delimiter_is_generated :
-  bytes_to_string Generated.SpatialIDDelimiter = String slash EmptyString /\
-  Generated.SpatialIDDelimiter = [Z.of_nat (nat_of_ascii slash)] /\
-  (forall i, print_eid i = String.concat (bytes_to_string Generated.SpatialIDDelimiter)
-                                        [print (eh i); print (ex i); print (ey i); print (ev i); print (ef i)]) /\
-  (forall l, join l = String.concat (bytes_to_string Generated.SpatialIDDelimiter) l).
-Proof.
-  rewrite gen_SpatialIDDelimiter_eq. split; [reflexivity|]. split; [reflexivity|]. split.
-  - intros i. unfold print_eid. apply join_concat.
-  - apply join_concat.
-Qed.
+
